@@ -50,6 +50,11 @@ func c18Gen(t *rapid.T) qScenario {
 		m.From, m.OriginalFrom = f, f
 	case 0:
 		m.From, m.OriginalFrom = "", ""
+	case 9:
+		// U+0080 in the local part and no SMTPUTF8 (the endpoint's own test lets exactly this character through)
+		if rapid.Bool().Draw(t, "u80_sender") {
+			m.From, m.OriginalFrom = "a\u0080b@example.com", "a\u0080b@example.com"
+		}
 	case 1:
 		m.From, m.OriginalFrom = "отправитель@тест.example", "отправитель@тест.example"
 		m.UTF8 = true
@@ -68,6 +73,10 @@ func c18Gen(t *rapid.T) qScenario {
 				m.OriginalRcpts = map[string]string{}
 			}
 			m.OriginalRcpts[r] = fmt.Sprintf("alias%d@example.org", i)
+			if rapid.IntRange(0, 5).Draw(t, "quoted_rcpt") == 0 {
+				// the sender wrote "john doe"@example.org, go-smtp hands it over without the quotes
+				m.OriginalRcpts[r] = fmt.Sprintf("john doe%d@example.org", i)
+			}
 		}
 		m.Rcpts = append(m.Rcpts, r)
 	}
@@ -183,11 +192,19 @@ func c18Parse(raw []byte) c18Parsed {
 	return p
 }
 
+// c18AddrOf returns the address of an "address-type; address" field the way the envelope has it (a quoted local part
+// without the quotes).
 func c18AddrOf(field string) string {
 	if i := strings.IndexByte(field, ';'); i >= 0 {
-		return strings.TrimSpace(field[i+1:])
+		field = field[i+1:]
 	}
-	return strings.TrimSpace(field)
+	field = strings.TrimSpace(field)
+	if strings.HasPrefix(field, "\"") {
+		if a, err := mail.ParseAddress("<" + field + ">"); err == nil {
+			return a.Address
+		}
+	}
+	return field
 }
 
 func c18Run(sc qScenario) (vs []ev.V) {
@@ -246,6 +263,12 @@ func c18Run(sc qScenario) (vs []ev.V) {
 		if sc.Bounce == "body" && !rep.Aborted {
 			vs = append(vs, ev.Vf("report:failed-delivery-not-aborted", "%s: bounce pipeline failed at %s but the report delivery was not aborted", where, sc.Bounce))
 		}
+		for _, line := range strings.Split(string(rep.Raw), "\n") {
+			if len(line) > 999 { // 998 and the CR
+				vs = append(vs, ev.Vf("report:line-too-long", "%s: a line of %d octets (RFC 5322 2.1.1: at most 998): %.80q...", where, len(strings.TrimSuffix(line, "\r")), line))
+				break
+			}
+		}
 		p := c18Parse(rep.Raw)
 		if p.Err != "" {
 			vs = append(vs, ev.Vf("report:malformed", "%s: %s\n%s", where, p.Err, rep.Raw))
@@ -297,6 +320,12 @@ func c18Run(sc qScenario) (vs []ev.V) {
 			}
 			// the registered address types for this field are rfc822 (RFC 3464) and utf-8 (RFC 6533 section 3, IANA
 			// "Address Types" registry); there is no type "utf8"
+			if fr := strings.SplitN(g.FinalRcpt, ";", 2); len(fr) == 2 {
+				// the address is a mailbox in the syntax of RFC 5321 / 6531: a local part with a space is quoted
+				if _, err := mail.ParseAddress("<" + strings.TrimSpace(fr[1]) + ">"); err != nil {
+					vs = append(vs, ev.Vf("report:final-recipient-malformed", "%s: Final-Recipient %q is not a mailbox (%v)", where, g.FinalRcpt, err))
+				}
+			}
 			if at := strings.ToLower(strings.TrimSpace(strings.SplitN(g.FinalRcpt, ";", 2)[0])); at != "rfc822" && at != "utf-8" {
 				vs = append(vs, ev.Vf("report:address-type", "%s: Final-Recipient %q: address type %q is neither rfc822 nor utf-8", where, g.FinalRcpt, at))
 			}
